@@ -58,8 +58,8 @@ def table : List Entry := [
   ⟨"discover.serfNet.MembersIP|index|members[i]#2", "for:i < len(members); in:members[i].Name != s._serf.LocalMember().Name", .safe "index bounded by the enclosing loop condition / range"⟩,
   ⟨"discover.serfNet.NumOfPeers|index|members[i]", "for:i < len(members)", .safe "index bounded by the enclosing loop condition / range"⟩,
   ⟨"discover.serfNet.NumOfPeers|index|members[i]#2", "for:i < len(members); and:members[i].Status == serf.StatusAlive", .safe "index bounded by the enclosing loop condition / range"⟩,
-  ⟨"dkg.DistKeyGenerator.DistKeyShare|deref|deal.SecShare.V", "", .safe "only reached when Certified: v.Deal() is the deal VerifyDeal accepted, whose SecShare and V were checked first (secShareNil, shareVNil)"⟩,
-  ⟨"dkg.DistKeyGenerator.DistKeyShare|ifacenil|deal.SecShare.V", "", .safe "as above: VerifyDeal rejects a share without value before storing the deal"⟩,
+  ⟨"dkg.DistKeyGenerator.DistKeyShare|deref|deal.SecShare.V", "", .model "distKeyShare: every aggregator stores a deal whose share has a value (dkgRun_good, distKeyShare_total)"⟩,
+  ⟨"dkg.DistKeyGenerator.DistKeyShare|ifacenil|deal.SecShare.V", "", .model "distKeyShare: every aggregator stores a deal whose share has a value (dkgRun_good, distKeyShare_total)"⟩,
   ⟨"dkg.DistKeyGenerator.ProcessDeal|deref|dd.Index", "", .safe "dd is the result of a comma-ok assertion on a message built by ptypes.UnmarshalAny: never a nil pointer"⟩,
   ⟨"dkg.DistKeyGenerator.ProcessDeal|mapwrite|d.verifiers[dd.Index]", "", .safe "map created by make in the same function or in the constructor"⟩,
   ⟨"dkg.DistKeyGenerator.ProcessDeal|mapzero|d.verifiers[dd.Index].UnsafeSetResponseDKG", "", .safe "entry stored a few lines above; its aggregator exists because ProcessEncryptedDeal returned no error"⟩,
@@ -227,7 +227,8 @@ def table : List Entry := [
   ⟨"vss.NewDealer|index|d.deals[i]", "", .safe "deals made with len(d.verifiers), i ranges over d.verifiers"⟩,
   ⟨"vss.Signature.ToBigInt|slice|m.Signature[0:32]", "after:len(m.Signature) < 32", .flag "toBigLen"⟩,
   ⟨"vss.Signature.ToBigInt|slice|m.Signature[32:]", "after:len(m.Signature) < 32", .flag "toBigLen"⟩,
-  ⟨"vss.Verifier.ProcessEncryptedDeal|deref|d.SecShare.I", "after:d.SecShare == nil", .flag "secShareNil"⟩,
+  ⟨"vss.Verifier.ProcessEncryptedDeal|deref|d.SecShare.I", "after:d.SecShare == nil || d.SecShare.V == nil", .flag "secShareNil"⟩,
+  ⟨"vss.Verifier.ProcessEncryptedDeal|deref|d.SecShare.V", "or:d.SecShare == nil", .flag "secShareNil"⟩,
   ⟨"vss.Verifier.decryptDeal|callpanics|gcm.Open(nil, e.Nonce, e.Cipher, v.hkdfContext)", "after:len(e.Nonce) != gcm.NonceSize()", .flag "nonceLen"⟩,
   ⟨"vss.Verifier.decryptDeal|deref|e.DHKey", "after:e == nil", .flag "encNil"⟩,
   ⟨"vss.aggregator.VerifyDeal|deref|d.SecShare", "or:d == nil", .flag "shareVNil"⟩,
